@@ -36,6 +36,8 @@ def gen_loop_history(rng: core.Rng, iters: int, query: str) -> List[list]:
             h.append(["QueryG", rng.choice([0, 1, 6])])
         elif query == "eql":
             h.append(["QueryE", rng.choice([0, 1, 6])])
+        elif query == "declare":
+            h.append(["Declare", rng.choice([0, 1, 6])])   # declared while the instances exist, never evaluated
         for o in ids:
             h.append(["Drop", o])
         h.append(["Sweep"])
@@ -60,6 +62,12 @@ def check_loop(p: dict, r: dict):
     # instances of A (classes 0..5, 7) are what let(A, ...) ranges over
     n_a = sum(1 for c in p["classes"] if c != 6)
     pin = p["query"] in ("eql", "eql_domain")
+    if p["query"] == "declare":
+        # a declared variable holds no instance; only the expression tables grow (3 entries per query: finding C20-a)
+        for it, row in enumerate(r["rows"]):
+            if row["alive"] != 0 or any(row["sizes"]) or row["exprs"] != 3 * (it + 1):
+                return "bad", f"round {it}: {row} expected nothing alive, empty containers, exprs={3 * (it + 1)}"
+        return "C20-a", ""
     n_rel_pinned = len({(a, f, b) for a, f, b in p["rels"] if p["classes"][a] != 6 and p["classes"][b] != 6}) if pin else 0
     saw_finding = False
     for it, row in enumerate(r["rows"]):
@@ -85,8 +93,9 @@ def run(tier: str, seed: int, replay=None) -> int:
         "it is tied by the census: an instance is alive after drop + gc.collect() iff the model says a cached domain holds it"]
     rep.assume = c13.ASSUME + ["partial: reclamation itself is CPython's decision; the theorems are about what krrood holds"]
     rep.rule = ("corpus + seeded random histories of C13's machine weighted towards EQL queries and drops + create/relate/query/"
-                "drop-all/sweep loops as histories (12 rounds quick, 60 thorough; none / registry / EQL query) + descriptor loops over "
-                "Person/Company pairs (30 rounds quick, 200 thorough; none / registry / eql / eql with explicit domain); "
+                "drop-all/sweep loops as histories (12 rounds quick, 60 thorough; none / registry / EQL query / variable declared but never evaluated) + "
+                "C13's 'decl' profile (declare, change the world, evaluate later) + descriptor loops over "
+                "Person/Company pairs (30 rounds quick, 200 thorough; none / registry / eql / eql with explicit domain / declared-only query); "
                 "non-trivial = >= 4 ops of >= 3 kinds; every loop")
     ok_spec, log = core.coq_make(["Base/Sx.vo", "Onto/RegistrySpec.vo", "Onto/RegistrySpecRun.vo"])
     rep.oblige("build:spec", ok_spec, "" if ok_spec else core.first_error(log))
@@ -103,9 +112,10 @@ def run(tier: str, seed: int, replay=None) -> int:
         hists += [c13.gen_history(r1, "all", 4, 16 if tier == "quick" else 28) for _ in range(500 * n)]
         hists += [c13.gen_history(r1, "churn", 4, 16 if tier == "quick" else 28) for _ in range(300 * n)]
         it = 12 if tier == "quick" else 60
-        hists += [gen_loop_history(r2, it, q) for q in ("none", "registry", "eql") for _ in range(12)]
+        hists += [c13.gen_history(r1, "decl", 4, 16 if tier == "quick" else 28) for _ in range(250 * n)]
+        hists += [gen_loop_history(r2, it, q) for q in ("none", "registry", "eql", "declare") for _ in range(12 if q != "declare" else 8)]
         its = 30 if tier == "quick" else 200
-        loops = [gen_loop(r3, its, m) for m in ("none", "registry", "eql", "eql_domain") for _ in range(3 if tier == "quick" else 6)]
+        loops = [gen_loop(r3, its, m) for m in ("none", "registry", "eql", "eql_domain", "declare") for _ in range(3 if tier == "quick" else 6)]
     if not model_ok:
         rep.note("model not available; comparing the implementation with the Spec only (search for a failing input)")
     results, codes, hd, inst = c13.decide(rep, PROP, hists, model_ok, "lifetime", ACCEPT)
